@@ -94,6 +94,10 @@ impl<'ctx> PriceRepositoryBuilder<'ctx> {
         price_of: SingleAmount<'ctx>,
         price_with: SingleAmount<'ctx>,
     ) {
+        if price_of.value.is_zero() {
+            // zero amount (e.g. `0 X @@ 5 Y`) doesn't give any rate.
+            return;
+        }
         let Entry(stored_source, entries): &mut _ = self
             .records
             .entry(price_with.commodity)
